@@ -68,7 +68,8 @@ Equations(q, o, lam) ==
   ELSE IF ~Close(MulP(o.im, q.M, P12), MulInt(MulP(q.c, q.imB, P12), 10), NTOL) \/ o.im.s < 0 THEN "SldImag"
   ELSE IF ~CloseScaled(MulP(MulP(Sq(o.inc), FourPi, P12), Sq(q.M), P12), MulInt(MulP(Sq(q.c), q.X, P12), 100), NTOL,
                        MulInt(MulP(Sq(q.c), q.sscale, P12), 100)) \/ o.inc.s < 0 THEN "SldIncoherent"
-  ELSE IF ~Close(MulP(MulInt(o.coh, 100), MulP(q.n, q.M, P12), P12), MulP(q.c, q.b2, P12), NTOL) THEN "XsCoherent"
+  ELSE IF ~CloseScaled(MulP(MulInt(o.coh, 100), MulP(q.n, q.M, P12), P12), MulP(q.c, q.b2, P12), NTOL,
+                       MulP(q.c, MulP(FourPi, Add(Sq(q.absRe), Sq(q.imB)), P12), P12)) THEN "XsCoherent"
   ELSE IF ~Close(MulP(o.abs, q.M, P12), MulP(MulInt(MulP(q.c, lam, P12), 2000), q.imB, P12), NTOL) THEN "XsAbsorption"
   ELSE IF ~CloseScaled(MulP(MulInt(o.incxs, 100), MulP(q.n, q.M, P12), P12), MulP(q.c, q.X, P12), NTOL, MulP(q.c, q.sscale, P12))
           \/ o.incxs.s < 0 THEN "XsIncoherent"
